@@ -290,6 +290,10 @@ func (g *c06gen) text(d int) *c06xn {
 			return &c06xn{k: "call", s: "lower", kids: []*c06xn{g.text(d - 1)}}
 		}
 		return &c06xn{k: "call", s: "concat", kids: []*c06xn{g.text(d - 1), g.text(d - 1)}}
+	case k < 9 && g.rng.Intn(2) == 0:
+		// `+` between two texts (expr-lang concatenates; rows where a column is absent or NULL come before complete ones)
+		g.tag("text-plus-text")
+		return &c06xn{k: "arith", op: "add", kids: []*c06xn{g.text(0), g.text(0)}}
 	default:
 		return g.caseOf(d, "text")
 	}
